@@ -229,15 +229,15 @@ def text_prop(mod, scopes):
 
 
 PROPS = {
-    "C01": ip_prop("C01", [ip_checks.core_scope, ip_checks.file_scope, ip_checks.big_history]),
-    "C02": ip_prop("C02", [ip_checks.core_scope, ip_checks.file_scope, ip_checks.cli_scope, ip_checks.big_history, ip_checks.process_history_scope]),
-    "C03": ip_prop("C03", [ip_checks.core_scope, ip_checks.file_scope, ip_checks.big_history, ip_checks.process_history_scope]),
+    "C01": ip_prop("C01", [ip_checks.core_scope, ip_checks.file_scope, ip_checks.big_history, ip_checks.text_history_scope, ip_checks.process_history_scope]),
+    "C02": ip_prop("C02", [ip_checks.core_scope, ip_checks.file_scope, ip_checks.cli_scope, ip_checks.big_history, ip_checks.process_history_scope, ip_checks.text_history_scope]),
+    "C03": ip_prop("C03", [ip_checks.core_scope, ip_checks.file_scope, ip_checks.big_history, ip_checks.process_history_scope, ip_checks.text_history_scope, ip_checks.cli_scope, ip_checks.dir_history_scope]),
     "C04": ip_prop("C04", [ip_checks.core_scope, ip_checks.file_scope, ip_checks.cli_scope, ip_checks.big_history], ["Netconan.Props.C04Data"]),
-    "C05": ip_prop("C05", [ip_checks.mask_scope, ip_checks.core_scope, ip_checks.file_scope, ip_checks.cli_scope, iptext_checks.long_line_scope]),
+    "C05": ip_prop("C05", [ip_checks.mask_scope, ip_checks.core_scope, ip_checks.file_scope, ip_checks.cli_scope, iptext_checks.long_line_scope, ip_checks.big_history, ip_checks.process_history_scope]),
     "C18": {"modules": ["Netconan.Props.C18", "Netconan.Props.C18Data"], "scopes": [jun_checks.scope],
             "checker_cmd": "cd lean && lake build Netconan.Props.C18 && lake env lean <#print axioms audit>", "rule": JUN_RULE,
             "assumptions": ["FAMILY/ENCODING/EXTRA/_fixedc tables are regenerated from the live module on every run; the functions are modelled by hand and tied by correspondence"]},
-    "C06": {"modules": ["Netconan.Props.C06"], "scopes": [iptext_checks.scope, iptext_checks.io_scope, iptext_checks.long_line_scope],
+    "C06": {"modules": ["Netconan.Props.C06"], "scopes": [iptext_checks.scope, iptext_checks.io_scope, iptext_checks.long_line_scope, ip_checks.text_history_scope],
             "checker_cmd": "cd lean && lake build Netconan.Props.C06 && lake env lean <#print axioms audit>",
             "rule": "exhaustive strings up to length 4 (quick) / 5 (thorough) over the boundary alphabets '025.a /', '1f:g /', '1f:.% '; structured dotted "
                     "and colon-separated tokens with near-miss parts and delimiters; every h::l split shape; realistic multi-token lines; "
@@ -246,7 +246,7 @@ PROPS = {
     "C07": {"modules": ["Netconan.Props.C07"], "scopes": [secret_checks.corr_scope, secret_checks.c07_scope],
             "checker_cmd": "cd lean && lake build Netconan.Props.C07 && lake env lean <#print axioms audit>", "rule": SECRET_RULE,
             "assumptions": SECRET_ASSUME},
-    "C08": {"modules": ["Netconan.Props.C08", "Netconan.Props.C18Data"], "scopes": [secret_checks.corr_scope, secret_checks.c08_scope],
+    "C08": {"modules": ["Netconan.Props.C08", "Netconan.Props.C18Data"], "scopes": [secret_checks.corr_scope, secret_checks.c08_scope, secret_checks.c08_dir_scope],
             "checker_cmd": "cd lean && lake build Netconan.Props.C08 && lake env lean <#print axioms audit>", "rule": SECRET_RULE,
             "assumptions": SECRET_ASSUME},
     "C09": {"modules": ["Netconan.Props.C09"], "scopes": [secret_checks.corr_scope, secret_checks.c09_scope],
